@@ -888,6 +888,36 @@ class Facts:
                     elif k == 'meta':
                         self.meta = r
         self._callers = None
+        self._idx = None
+
+    def _index(self):
+        """callee name -> set(raw body ids); cached next to the fact file."""
+        if self._idx is not None:
+            return self._idx
+        ip = self.path + '.calls.json'
+        if os.path.exists(ip) and os.path.getmtime(ip) >= os.path.getmtime(self.path):
+            try:
+                self._idx = json.load(open(ip))
+                return self._idx
+            except Exception:
+                pass
+        idx = {}
+        for raw, line in self._lines.items():
+            rec = json.loads(line)
+            names = set()
+            for blk in rec['blocks']:
+                t = blk['term']
+                if t['t'] in ('call', 'tailcall'):
+                    for nm in callee_names(t):
+                        names.add(nm)
+            for nm in names:
+                idx.setdefault(nm, []).append(raw)
+        tmp = ip + '.%d.tmp' % os.getpid()
+        with open(tmp, 'w') as f:
+            json.dump(idx, f)
+        os.replace(tmp, ip)
+        self._idx = idx
+        return idx
 
     def body_ids(self):
         return list(self._lines.keys())
@@ -931,15 +961,18 @@ class Facts:
     def callers(self, pat):
         """All call sites in the crate whose callee matches pat."""
         out = []
-        # cheap pre-filter on the raw text
-        needle = None
-        if not pat.startswith('re:'):
-            needle = pat.split('::')[-1]
-        for raw, line in self._lines.items():
-            if needle is not None and needle not in line:
-                continue
-            b = self.body_raw(raw)
-            out.extend(b.calls(pat))
+        idx = self._index()
+        raws = []
+        seen = set()
+        for nm, rs in idx.items():
+            if path_matches(nm, pat):
+                for r in rs:
+                    if r not in seen:
+                        seen.add(r)
+                        raws.append(r)
+        for raw in raws:
+            if raw in self._lines:
+                out.extend(self.body_raw(raw).calls(pat))
         return out
 
     def impls_of_trait(self, trait_pat):
